@@ -108,6 +108,9 @@ func (in *Interp) tlsHandshake(fr *frame, t *Obj) Value {
 		if t.F["hs"].(bool) {
 			return Iface{}
 		}
+		if e, ok := t.F["hsErr"]; ok {
+			return e
+		}
 		return in.newError(CStr("tls: handshake failure"), nil)
 	}
 	raw, _ := in.rawConn(t.F["raw"])
@@ -130,7 +133,22 @@ func (in *Interp) tlsHandshake(fr *frame, t *Obj) Value {
 	if res {
 		return Iface{}
 	}
-	return in.newError(CStr("tls: handshake failure"), nil)
+	e := in.newError(CStr("tls: handshake failure"), nil)
+	if raw != nil {
+		if pt := raw.F["plaintextClient"]; pt != nil && in.branch(pt, "client speaks plaintext") {
+			// the client's first bytes were not a TLS record: crypto/tls reports a
+			// RecordHeaderError that carries the underlying connection
+			rt := in.namedType("crypto/tls", "RecordHeaderError")
+			st := rt.Underlying().(*types.Struct)
+			v := in.zero(rt).(Struct)
+			v[structFieldIndex(st, "Msg")] = CStr("first record does not look like a TLS handshake")
+			v[structFieldIndex(st, "Conn")] = t.F["raw"]
+			errObj(e).F["as:"+rt.String()] = v
+			errObj(e).str = CStr("tls: first record does not look like a TLS handshake")
+		}
+	}
+	t.F["hsErr"] = e
+	return e
 }
 
 // connWrite writes s to a net.Conn value.
@@ -529,6 +547,11 @@ func registerEnvIntrinsics() {
 	I["(*crypto/tls.Conn).Handshake"] = func(in *Interp, fr *frame, args []Value) (Value, bool) {
 		o := in.sideObj(args[0], "tlsconn")
 		return in.tlsHandshake(fr, o), true
+	}
+	I["(*crypto/tls.Conn).HandshakeContext"] = I["(*crypto/tls.Conn).Handshake"]
+	I["(*crypto/tls.Conn).NetConn"] = func(in *Interp, fr *frame, args []Value) (Value, bool) {
+		o := in.sideObj(args[0], "tlsconn")
+		return o.F["raw"], true
 	}
 	tlsDelegate := func(method string) intrinsicFn {
 		return func(in *Interp, fr *frame, args []Value) (Value, bool) {
